@@ -47,6 +47,7 @@ type SpecEnv struct {
 	oldAlloc Term
 	bound    []string // SMT names of the quantified variables in scope
 	resolverFirst bool          // loop invariants: source names denote current values
+	inMacro       bool          // evaluating the body of a defined pure function
 	inOld         bool          // inside old(): parameter names denote entry values
 	quantNames    map[string]bool // spec-level names bound by quantifiers / macros (shadow source names)
 }
@@ -431,7 +432,14 @@ func (e *SpecEnv) eval(x SExpr) SVal {
 			ty := vc.resolveType(qv.Type, e.pkg)
 			// bound variables are named after the quantifier's source text, so that two
 			// expansions of the same clause / macro are syntactically identical formulas
-			name := smtSym(fmt.Sprintf("q_%s!%x", qv.Name, fnvHash(n.String())))
+			// (only inside macro bodies; elsewhere names are unique)
+			var name string
+			if e.inMacro {
+				name = smtSym(fmt.Sprintf("q_%s!%x", qv.Name, fnvHash(n.String())))
+			} else {
+				vc.n++
+				name = smtSym(fmt.Sprintf("q_%s!%d", qv.Name, vc.n))
+			}
 			binds = append(binds, fmt.Sprintf("(%s %s)", name, ty.Sort))
 			c.names[qv.Name] = SVal{name, ty}
 			c.bound = append(append([]string{}, c.bound...), name)
@@ -894,6 +902,7 @@ func (e *SpecEnv) evalCall(n *SCall) SVal {
 		c := e.child()
 		c.pkg = vc.pkgByRel(pf.Pkg)
 		c.resolver = nil
+		c.inMacro = true
 		for i, p := range params {
 			a := arg(i)
 			c.names[pf.Params[i].Name] = SVal{e.coerce(a, p), p}
